@@ -47,6 +47,7 @@ ALLOW = {
     ('oal_client::lsp::Folder::new', 'unwrap'): (1, 'path_segments_mut on a file: URL (scheme tested on the line above) cannot fail'),
     ('oal_model::locator::Locator::as_base', 'unwrap'): (1, 'only called by Config::new on the URL of the current directory'),
     ('oal_wasm::<WebLoader<\'_> as oal_compiler::module::Loader<anyhow::Error>>::parse', 'unwrap'): (1, 'tree is Some whenever the error list is empty (oal_syntax::parse contract, C11/C04.R2)'),
+    ('oal_wasm::<WebLoader<\'_> as oal_compiler::module::Loader<anyhow::Error>>::load', 'panic'): (1, 'assert_eq!(loc, INPUT): module::load loads an import only after is_valid(loc), which is loc == INPUT (C10.R4), and the base is INPUT'),
     ('oal_client::lsp::Workspace::change', 'replace_range'): (1, 'offsets from position_to_utf8 are prefix sums of len_utf8 (C16) and ordered when the client range is'),
 }
 
